@@ -299,6 +299,16 @@ def regenerate(case):
 
 def check_case(ctx, cell, case):
     x = regenerate(case)
+    if "constraint" in case and not (case["constraint"] == "peak" and case["complex"] and False):
+        try:
+            xt = to_t(x)
+            xb = xt.clone()
+            build(case)(xt)
+            import torch as _t
+            ctx.check(bool(_t.equal(xt, xb)), "C08.input_unmodified", {"constraint": case["constraint"], "dtype": "complex" if case["complex"] else "real"}, case, None, None,
+                      "constraint modified its input tensor", CHK)
+        except Exception:
+            pass
     c = case.get("constraint") or ("composite" if "parts" in case else "factory_" + case["factory"])
     cell = cell or {"constraint": c, "dtype": "complex" if case["complex"] else "real", "layout": f"{len(case['shape'])}d" + ("_b1" if case["shape"][0] == 1 and len(case["shape"]) > 1 else ""), "family": case["family"]}
     if "parts" in case:
